@@ -13,3 +13,4 @@ pub mod stall;
 pub mod frames;
 pub mod shutdown;
 pub mod multitopic;
+pub mod peerloss;
